@@ -89,3 +89,17 @@ func init() {
 		Edits: []Edit{{File: "server.go", Old: `	s.handle(ctx, newCrypter(secret, conn, s.proxy), handler)`, New: `	wrapped := newCrypter(secret, conn, s.proxy)
 	s.handle(ctx, wrapped, handler)`}}})
 }
+
+func init() {
+	addMutant(Mutant{Name: "benign-option-clamps-captured-argument", Benign: true, Props: []string{"C09", "C14", "C15"},
+		Why: "an option closure assigns to its own captured argument before storing it (no shared state involved; what it stores is a C06 matter)",
+		Edits: []Edit{{File: "header.go", Old: `		h.SeqNo = SequenceNumber(v)`, New: `		if v < 0 {
+			v = 0
+		}
+		h.SeqNo = SequenceNumber(v)`}}})
+	addMutant(Mutant{Name: "benign-wrapper-configured-before-loop", Benign: true, Props: []string{"C09", "C15", "C05"},
+		Why: "the per-connection function sets a field of the stream wrapper before the request loop starts",
+		Edits: []Edit{{File: "server.go", Old: `	s.handle(ctx, newCrypter(secret, conn, s.proxy), handler)`, New: `	wrapped := newCrypter(secret, conn, false)
+	wrapped.proxy = s.proxy
+	s.handle(ctx, wrapped, handler)`}}})
+}
